@@ -1,9 +1,11 @@
 (** Extraction of the descriptor interpreter (generated-message semantics). ExtrOcamlBasic only. *)
 From Coq Require Extraction ExtrOcamlBasic.
 From Coq Require Import ZArith List.
-From CanVerif Require Import Can.Data Descriptor.Types Gen.Message Gen.History.
+From Flocq Require Import BinarySingleNaN.
+From CanVerif Require Import Can.Data Descriptor.Types Descriptor.Physical Gen.Message Gen.History Gen.HistoryPhys.
 Extraction Language OCaml.
 Extraction "model.ml"
   frame_of unmarshal reset_state copy_from dispatch raw_set raw_set_value step frame_valid inv in_range
   signal_super_type signal_prim_type read_field write_field mux_index raw_lo raw_hi
+  phys_set phys_set_value phys_okb
   Z.add Z.mul Z.sub Z.ltb Z.leb Z.eqb Z.of_nat Z.to_nat Z.pow Z.modulo Z.div Z.land Z.lor.
